@@ -2,11 +2,18 @@
 C11, sink-agnostic clause: writing a Rough TLV message through an HCOBS `Encoder`
 sink yields the HCOBS encoding of the message's layout.
 
-`MessageWrapper::encode` emits the layout as a sequence of `append_copy` /
-`append_borrow` calls; whatever that sequence is, its concatenation is the layout
-(`C11.encode_layout`), and the HCOBS encoder's output depends on the concatenation
-only (`C01.enc_impl_refines_spec`).  That the real code's call sequence concatenates
-to the layout is tied by the `tlv` correspondence family (sink `hcobs`).
+`MessageWrapper::encode` is a sequence of `append_copy` / `append_borrow` calls on
+its `ZeroCopySink`; `Wrapper.encodePieces` (Model/RoughTlv.lean) is that sequence,
+call by call, with the method of each call (borrowed `Cow`s are `append_borrow`,
+everything else `append_copy`, nested messages recurse).  `impl ZeroCopySink for
+hcobs::Encoder` maps `append_copy` to `encode_copy` and `append_borrow` to `encode`,
+i.e. to the two `Method`s of the encoder model, so the encoder sink fed by
+`encode` is `Enc.output prod (encodePieces …)`: the incremental encoder state machine
+run on exactly those pieces by exactly those methods.  `sink_agnostic` says what it
+produces.  That the real `encode` makes exactly these calls is tied by the `tlv`
+correspondence family (`calls` lines: method and length of every call, both sinks;
+`wire` line: the bytes the real `hcobs::Encoder` sink produced against
+`Enc.output prod` of the model's calls).
 -/
 import Woodpile.Props.C11
 import Woodpile.Props.C01
@@ -15,7 +22,47 @@ import Woodpile.Props.C02
 namespace Woodpile.Props.C11S
 open Woodpile.RoughTlv Woodpile.Hcobs
 
-theorem sink_agnostic {V : Type} (bytes : V → List UInt8) (len : V → Nat) (_ps : List (Pair V))
+/-- **Sink agnostic.**  For every list the constructors accept, over lawful values
+that do not panic (any `Cow` variant, any nesting: `calls` is arbitrary), `encode`
+makes a call sequence `cs` whose concatenation `out` is the Roughtime layout of
+`C11.encode_layout` (what an `OwningIovec` sink ends up holding, `C03`), and the
+HCOBS `Encoder` sink fed with those calls by those methods (`append_copy` =
+`encode_copy`, `append_borrow` = `encode`) ends, after `finish`, holding exactly the
+HCOBS encoding of `out` with no placeholder pending; the batch decoder and the
+incremental `Decoder` (fed the wire bytes in any segmentation by any method) give
+`out` back, on which `MessageView` returns the caller's pairs (`C11.view_roundtrip`). -/
+theorem sink_agnostic {V : Type} (calls : V → Option (List Piece)) (len : V → Nat)
+    (ps : List (Pair V)) (w : Wrapper V) (h : Accepted len ps w)
+    (hl : ∀ p ∈ ps, CallsLawful calls len p.2) (hs : ∀ p ∈ ps, (calls p.2).isSome = true) :
+    ∃ cs out, w.encodePieces calls len = some cs ∧ flat cs = out ∧
+      w.encode (bytesOf calls) len = some out ∧ out.length = w.tlvLen ∧
+      (Enc.output Woodpile.Props.C02.prod cs).bytes = Spec.encode Woodpile.Props.C02.prod out ∧
+      (Enc.output Woodpile.Props.C02.prod cs).pending = false ∧
+      Spec.decode Woodpile.Props.C02.prod (Enc.output Woodpile.Props.C02.prod cs).bytes = some out ∧
+      (∀ wire : List (Method × List UInt8),
+        (wire.map (·.2)).flatten = (Enc.output Woodpile.Props.C02.prod cs).bytes →
+        Dec.output Woodpile.Props.C02.prod wire = .ok out) ∧
+      View.new out = some (.ok ⟨out⟩) := by
+  obtain ⟨cs, h1, h2, h3⟩ := h.calls hl hs
+  have hv := Woodpile.Props.C02.prod_params_valid
+  have he := Woodpile.Props.C01.enc_impl_refines_spec Woodpile.Props.C02.prod hv cs
+  have hflat : (cs.map (·.2)).flatten = flat cs := rfl
+  rw [hflat] at he
+  have hlb : ∀ p ∈ ps, len p.2 = (bytesOf calls p.2).length := fun p hp => (hl p hp).bytes (hs p hp)
+  obtain ⟨out', h4, h5⟩ := Woodpile.Props.C11.view_accepts (bytesOf calls) len ps w h hlb
+  rw [h2] at h4
+  cases h4
+  refine ⟨cs, flat cs, h1, rfl, h2, h3, he.1, he.2, ?_, ?_, h5⟩
+  · rw [he.1]
+    exact Woodpile.Hcobs.Spec.decode_encode _ hv _
+  · intro wire hw
+    have := Woodpile.Props.C01.roundtrip Woodpile.Props.C02.prod hv cs wire hw
+    rwa [hflat] at this
+
+/-- The earlier, weaker form (kept: it is the general fact the strong form
+instantiates): ANY pieces that concatenate to the layout, by any methods, give the
+same HCOBS encoding.  It says nothing about which pieces `encode` actually makes. -/
+theorem sink_agnostic_any_pieces {V : Type} (bytes : V → List UInt8) (len : V → Nat) (_ps : List (Pair V))
     (w : Wrapper V) (out : List UInt8) (_henc : w.encode bytes len = some out)
     (pieces : List (Method × List UInt8)) (hp : (pieces.map (·.2)).flatten = out) :
     (Enc.output Woodpile.Props.C02.prod pieces).bytes = Spec.encode Woodpile.Props.C02.prod out ∧
@@ -26,5 +73,26 @@ theorem sink_agnostic {V : Type} (bytes : V → List UInt8) (len : V → Nat) (_
   refine ⟨h.1, h.2, ?_⟩
   rw [h.1]
   exact Woodpile.Hcobs.Spec.decode_encode _ Woodpile.Props.C02.prod_params_valid out
+
+/-- The same for the `tlv` family's own values, with every hypothesis discharged:
+in any reachable state, encoding a stored fake-free message into the HCOBS sink
+model yields the HCOBS encoding of its layout. -/
+theorem sink_agnostic_driver (s : TlvSt) (hr : TlvReach s) (i : Nat) (w : Wrapper DVal)
+    (hi : s.slots[i]? = some (some w)) (hf : hasFake w = false) :
+    ∃ cs, w.encodePieces DVal.calls DVal.len = some cs ∧
+      (Enc.output Woodpile.Props.C02.prod cs).bytes = Spec.encode Woodpile.Props.C02.prod (flat cs) ∧
+      (Enc.output Woodpile.Props.C02.prod cs).pending = false ∧
+      w.encode DVal.bytes DVal.len = some (flat cs) := by
+  obtain ⟨ps, ha, _, hcl, hs⟩ := (hr.slotOK i w hi).hyps hf
+  obtain ⟨cs, out, h1, h2, h3, _, h5, h6, _⟩ := sink_agnostic DVal.calls DVal.len ps w ha hcl hs
+  subst h2
+  exact ⟨cs, h1, h5, h6, h3⟩
+
+/-! Non-vacuity: the crate's Cow message through the encoder model (one borrowed,
+one owned value): header byte 23, then the layout. -/
+example : (Enc.output Woodpile.Props.C02.prod
+      [(.copy, [2,0,0,0]), (.copy, [3,0,0,0]), (.copy, [1,0,0,0]), (.copy, [2,0,0,0]),
+        (.borrow, [97,115,100]), (.copy, [122,120,99,118])]).bytes
+    = [23, 2,0,0,0, 3,0,0,0, 1,0,0,0, 2,0,0,0, 97,115,100, 122,120,99,118] := by decide +kernel
 
 end Woodpile.Props.C11S
